@@ -9,12 +9,12 @@ import (
 
 // SchemaCfg steers the schema grammar.
 type SchemaCfg struct {
-	Hostile   bool     // property names over the hostile alphabet
-	Extended  bool     // anyOf / oneOf / not / patternProperties / schema-level definitions
-	Refs      []string // $ref strings that may be planted ("" entries are skipped)
-	RefPct    int      // chance of a $ref at a leaf position
-	PatEnum   bool     // plant patterns and enums
-	Counter   *int     // distinct labels
+	Hostile  bool     // property names over the hostile alphabet
+	Extended bool     // anyOf / oneOf / not / patternProperties / schema-level definitions
+	Refs     []string // $ref strings that may be planted ("" entries are skipped)
+	RefPct   int      // chance of a $ref at a leaf position
+	PatEnum  bool     // plant patterns and enums
+	Counter  *int     // distinct labels
 }
 
 func (c *SchemaCfg) next() int {
